@@ -175,6 +175,12 @@ BOUNDED = {'specs.studio.grouping': 'replay/bounded/c19_grouping.py',
            'specs.tr_units.w_out{\'mode\': \'recording\'': 'replay/bounded/c09_recording_sequences.py', 'specs.tr_helpers.post_metadata': 'replay/bounded/c09_recording_sequences.py',
            'specs.tr_small.': 'replay/bounded/c09_recording_sequences.py', 'specs.c01.tr_init': 'replay/bounded/c09_recording_sequences.py',
            'specs.matcher.match_value': 'replay/bounded/c14_matcher.py',
+           # asynchronous cassette: gated storage operations, the battery chooses the interleaving of producer / flusher / close
+           'specs.async_cas.': 'replay/bounded/c12_async.py',
+           # recording-id templates / key layout of the S3 cassette: lookups after saves on several days and categories
+           'specs.s3.s3_create': 'replay/bounded/c16_s3_lookup.py',
+           # keys: computed in separate interpreter processes with different hash seeds; sensitivity and independence over a value universe
+           'specs.keys.': 'replay/bounded/c06_keys.py',
            'specs.cassettes.': 'replay/bounded/c07_cassettes.py', 'specs.s3.s3_save_get': 'replay/bounded/c07_cassettes.py', 'specs.s3.s3_close': 'replay/bounded/c07_cassettes.py'}
 
 
@@ -184,7 +190,8 @@ SEARCH = [('specs.cassettes.', 'replay/bounded/c07_cassettes.py'), ('specs.s3.s3
           ('specs.s3.s3_create', 'replay/bounded/c07_cassettes.py'), ('specs.s3.facade_units', 'replay/bounded/c07_cassettes.py'), ('specs.s3.s3_category', 'replay/bounded/c07_cassettes.py'),
           ('specs.s3.s3_id_prefixes', 'replay/bounded/c16_s3_lookup.py'), ('specs.s3.facade_iter_keys', 'replay/bounded/c16_s3_lookup.py'),
           ('specs.s3.s3_iter_recording_ids', 'replay/bounded/c16_s3_lookup.py'), ('specs.s3.s3_prefix_iterators', 'replay/bounded/c16_s3_lookup.py'),
-          ('specs.files.', 'replay/bounded/c20_files.py'), ('specs.matcher.match_value', 'replay/bounded/c14_matcher.py'), ('specs.equalizer.', 'replay/bounded/c08_equalizer.py'), ('specs.studio.grouping', 'replay/bounded/c19_grouping.py'), ('specs.matcher.match_all', 'replay/bounded/c07_cassettes.py')]
+          ('specs.files.', 'replay/bounded/c20_files.py'), ('specs.matcher.match_value', 'replay/bounded/c14_matcher.py'), ('specs.equalizer.', 'replay/bounded/c08_equalizer.py'), ('specs.studio.grouping', 'replay/bounded/c19_grouping.py'), ('specs.matcher.match_all', 'replay/bounded/c07_cassettes.py'),
+          ('specs.async_cas.', 'replay/bounded/c12_async.py'), ('specs.keys.', 'replay/bounded/c06_keys.py')]
 
 
 def search_for(jobname):
